@@ -25,7 +25,7 @@ def _links(sites):
     return {frozenset(p) for p in zip(sites[:-1], sites[1:])}
 
 
-def h_disjoint(ctx, shape, reqs, groups, include_first=False):
+def h_disjoint(ctx, shape, reqs, groups, include_first=False, include_all=False):
     from gnpy.core.exceptions import DisjunctionError
     from gnpy.topology.request import compute_path_dsjctn, correct_json_route_list, Disjunction
     m = build_mesh(ctx, shape, symmetric_lengths=True)
@@ -37,6 +37,13 @@ def h_disjoint(ctx, shape, reqs, groups, include_first=False):
             inner = [x for x in m.sites if x not in (s, d)]
             opts = [((), ())] + [((f'roadm {x}',), (h,)) for x in inner for h in ('STRICT', 'LOOSE')]
             nodes, loose = ctx.choice('include of first request', opts)
+        if include_all:
+            # every request of the group carries its own include list: nothing, one inner ROADM (STRICT or LOOSE), or a LOOSE
+            # pair that no route can cross in that order (destination ROADM first)
+            inner = [x for x in m.sites if x not in (s, d)]
+            opts = [((), ())] + [((f'roadm {x}',), (h,)) for x in inner for h in ('STRICT', 'LOOSE')] + \
+                [((f'roadm {d}', f'roadm {inner[0]}'), ('LOOSE', 'LOOSE'))]
+            nodes, loose = ctx.choice(f'include of request {rid}', opts)
         inc[rid] = (list(nodes), list(loose))
         rqs.append(request(rid, s, d, nodes, loose))
     dis = [Disjunction(disjunction_id=f'g{j}', relaxable=False, link_diverse=True, node_diverse=True, disjunctions_req=list(g))
@@ -113,6 +120,21 @@ def jobs(tier):
     js = []
     for name, shape, reqs, groups, incl in CASES:
         js.append(dict(name=f'H12:{name}', fn='h_disjoint', params=dict(shape=shape, reqs=reqs, groups=groups, include_first=incl),
+                       witness_every=5, budget_s=200 if tier == 'quick' else 600, opts=dict(no_ties=True),
+                       cost=len(SHAPES[shape][1]) ** 3))
+    js += include_jobs(tier, 'H12')
+    return js
+
+
+def include_jobs(tier, prefix):
+    """pairs of requests of one group each with its own include list (also registered under C11: include nodes are respected
+    inside disjunction groups too)"""
+    js = []
+    for name, shape, reqs in (('triangle', 'triangle', [('1', 'A', 'C'), ('2', 'A', 'C')]),
+                              ('ring4+chord', 'ring4+chord', [('1', 'A', 'C'), ('2', 'A', 'C')]),
+                              ('mesh4', 'mesh4', [('1', 'A', 'D'), ('2', 'A', 'D')])):
+        js.append(dict(name=f'{prefix}:group_includes:{name}', module='harness.c12', fn='h_disjoint',
+                       params=dict(shape=shape, reqs=reqs, groups=[('1', '2')], include_all=True),
                        witness_every=5, budget_s=200 if tier == 'quick' else 600, opts=dict(no_ties=True),
                        cost=len(SHAPES[shape][1]) ** 3))
     return js
